@@ -193,6 +193,17 @@ int main(int argc, char** argv) {
           expect_same("move(a)+b", r6, r, 0); expect_same("a+move(b)", r7, r, 0); expect_same("move(a)+move(b)", r8, r, 0);
           SU_vector r9 = (a + b) + b, r10 = a + (b + b), e9 = r + b; expect_same("(a+b)+b", r9, e9, 0);
           SU_vector bb = b + b, e10 = a + bb; expect_same("a+(b+b)", r10, e10, 0);
+          // arithmetic on expression objects (proxy of proxy): same value as evaluating the inner expression first
+          SU_vector p1 = (a + b) * 2.0, e1 = r * 2.0; expect_same("(a+b)*2", p1, e1, 0);
+          SU_vector p2 = -(a + b), e2 = -r; expect_same("-(a+b)", p2, e2, 0);
+          SU_vector p3 = (a + b) - (a - b), amb = a - b, e3 = r - amb; expect_same("(a+b)-(a-b)", p3, e3, 0);
+          SU_vector p4 = (a + b) + (a - b), e4 = r + amb; expect_same("(a+b)+(a-b)", p4, e4, 0);
+          double dp = (a + b) * (a - b), de = r * amb; if (dp != de) mismatch("(a+b)*(a-b) scalar product", std::fabs(dp - de), 0);
+          SU_vector hh(d); for (int l = 1; l < d; l++) hh[d * l + l] = 0.25 * l;
+          SU_vector p5 = (a + b).Evolve(hh, 0.7), e5 = r.Evolve(hh, 0.7); expect_same("(a+b).Evolve(H,t)", p5, e5, 0);
+          // printing lists the components in order
+          { std::ostringstream os; os << r; std::istringstream is(os.str()); std::ostringstream ref; for (int k = 0; k < d * d; k++) ref << (k ? "  " : "") << r[k];
+            if (os.str() != ref.str()) mismatch("operator<<", 1, 0); }
         }
         for (int k = 0; k < d * d; k++) if (r[k] != a[k] + b[k]) { mismatch("a+b:bits", 1, 0); break; }
       } else if (op == "sub") {
